@@ -118,6 +118,9 @@ def generate_crop(seed, tier):
     ops.append({"op": "MeasureHomodyne", "p": [{"tdm": len(params) - 1}], "m": [0]})
     final = r.choice([{"shots": None, "space_unroll": True, "crop": True}, {"shots": 1, "space_unroll": False, "crop": True},
                       {"shots": 2, "space_unroll": False, "crop": True}])
+    if random.Random("c13cs:%d" % seed).random() < 0.2 and final["shots"] is not None:
+        ops[-1]["select"] = rnd(random.Random("c13cv:%d" % seed), -0.6, 0.6)  # post-selected detector together with the crop option
+        final = dict(final, shots=1)
     return {"N": [n], "T": T, "params": params, "ops": ops, "tape": seed, "history": [], "kind": "crop", "foreign_tdm": None, "shift": "default", "final": final,
             "delays": delays}
 
